@@ -329,6 +329,21 @@ def execute(case, backend='sim', record=False):
             lt = [ds.decide(L, p) for p in probes]
             loaded[0] = True
             F = ds.make_enforcer()
+            if prop == 'C09':
+                # the fresh enforcer is loaded explicitly, forcibly, twice,
+                # or only implicitly by the first decision
+                how = (step + len(probes) + len(ds.content)) % 4
+                try:
+                    if how == 1:
+                        F.load_rules()
+                    elif how == 2:
+                        F.load_rules(force_reload=True)
+                    elif how == 3:
+                        F.load_rules()
+                        F.load_rules(force_reload=True)
+                except Exception as ex:   # noqa
+                    dg.add('fresh-load', type(ex).__name__)
+                cnt.hit('fresh_enforcer_load_mode_%d' % how)
             ft = [ds.decide(F, p) for p in probes]
             dg.add('obs', step, lt, ft)
             if record:
